@@ -421,17 +421,31 @@ def canon_slice(t):
     return t, ()
 
 
+def _norm_slice(bp):
+    """one form for `x[k..]` whether it was written as a rest pattern (path form) or as an index / strip_prefix (value form)"""
+    base, path = bp
+    if len(path) == 1 and path[0][0] == "subslice" and path[0][2] == 0 and path[0][3]:
+        k = path[0][1]
+        if isinstance(base, tuple) and base and base[0] == "slice" and len(base) == 4:
+            return (("slice", base[1], mk_binop("Add", base[2], const(k)), base[3]), ())
+        return (("slice", base, const(k), None), ())
+    return bp
+
+
 def _derived_from_rest_after_comma(o, r2, rest):
     """r2 is rest[1..] or the loop-carried slice whose entry value is rest[1..]"""
-    after = (rest, (("subslice", 1, 0, True),))
-    if canon_slice(r2) == after:
+    after = _norm_slice((rest, (("subslice", 1, 0, True),)))
+    _cs = canon_slice
+    canon = lambda x: _norm_slice(_cs(x))
+    if canon(r2) == after:
         return True
     base, path = canon_slice(r2)
     if isinstance(base, tuple) and base[0] == "deref" and isinstance(base[1], tuple) and base[1][0] == "loopvar" and path == ():
         lv = base[1]
         lev = o.state.extra.get("loop_entry_values", {})
-        entry = lev.get((lv[1], lv[2], lv[3]))
-        return entry is not None and canon_slice(entry) == after
+        # (a loop in an expanded helper - `skip_delimiter(rest)` - carries its call chain in the loop variable)
+        entry = lev.get((lv[1], lv[2], lv[3]) + ((lv[5],) if len(lv) > 5 else ()))
+        return entry is not None and canon(entry) == after
     return False
 
 
